@@ -52,12 +52,13 @@ type Task struct {
 	// (buffered channel, condition variable) or only approximately
 	// (unbuffered channel, select: a rendezvous between two polling parties
 	// never happens)
-	exact  bool
-	waitOn unsafe.Pointer
-	prio   int
-	fn     func()
-	kill   bool // the simulation is over: leave at the next wake-up (runtime.Goexit)
-	exited uint32
+	exact   bool
+	waitOn  unsafe.Pointer
+	prio    int
+	fn      func()
+	lastRun int  // step at which the task was last chosen to run
+	kill    bool // the simulation is over: leave at the next wake-up (runtime.Goexit)
+	exited  uint32
 }
 
 // Event is one entry of the (bounded) event log of a concurrency run.
@@ -109,6 +110,7 @@ type Sched struct {
 	// whatever the others (goroutines the library started itself) are doing.
 	StopWhen int
 	Spawned  int
+	Starved  int // how often the fairness bound overruled the policy
 	Leftover int // tasks that were still alive when the simulation ended
 
 	// Probes
@@ -247,7 +249,7 @@ func (s *Sched) spawn(fn func()) {
 		go fn()
 		return
 	}
-	t := &Task{ID: slot, fn: fn, state: 0}
+	t := &Task{ID: slot, fn: fn, state: 0, lastRun: s.Steps}
 	if s.Policy == PolPCT {
 		t.prio = 100 + s.C.Intn(1000)*maxTasks + t.ID
 	}
@@ -345,7 +347,8 @@ func (s *Sched) yield(kind int, arg int) {
 	}
 	prevKind := s.lastKind
 	s.lastKind = kind
-	if s.Policy == PolSync && kind == YPoll {
+	if s.Policy == PolSync && kind == YPoll && s.Steps&1023 != 0 {
+		// (every 1024th poll is a decision all the same: bounded fairness)
 		return
 	}
 	next := s.pick(true)
@@ -379,6 +382,31 @@ func (s *Sched) pick(curOK bool) int {
 	if nr == 0 {
 		return -1
 	}
+	choice := s.choose(r[:nr], curOK)
+	// bounded fairness: Go's scheduler is preemptive, a runnable goroutine is
+	// not kept waiting for long; whoever has been runnable but not run for
+	// Fairness steps goes first (oldest first)
+	oldest := -1
+	for _, i := range r[:nr] {
+		if s.Steps-s.tasks[i].lastRun > Fairness && (oldest < 0 || s.tasks[i].lastRun < s.tasks[oldest].lastRun) {
+			oldest = i
+		}
+	}
+	if oldest >= 0 {
+		choice = oldest
+		s.Starved++
+	}
+	s.tasks[choice].lastRun = s.Steps
+	return choice
+}
+
+// Fairness is the number of scheduling steps (about one per VM instruction)
+// after which a runnable task is run whatever the policy says.
+const Fairness = 5000
+
+//go:norace
+func (s *Sched) choose(r []int, curOK bool) int {
+	nr := len(r)
 	if nr == 1 {
 		return r[0]
 	}
